@@ -23,6 +23,7 @@ Input (ints):  wb sb pb  <models>  encoder-ops...  [9|10 ...  decoder-ops...]
       22 i            seek(snapshot i)         -> 0 | -7
       23              raw parts                -> pos lower range point
       24 pos lower range   seek(explicit)      -> 0 | -7 | -5
+      28                   into_raw_parts -> from_raw_parts of the decoder itself -> 0 | -8
       25 lower range point from_raw_parts      -> 0 | -8 (refused) | -5
   digest(a,b[,c]) = (a + 31*b [+ 977*c]) mod 1000003 (big literals are expensive on the Coq side; the
   complete values are compared at every pos / raw-parts op and at the end).
@@ -247,6 +248,8 @@ def _decode_ops(rng, msg, n_snaps_at, nmodels, seeks=True):
         ops += [20, mi]
         if rng.random() < 0.03:
             ops.append(rng.choice([21, 23]))
+        if rng.random() < 0.08:
+            ops.append(28)               # take the decoder apart and reassemble it
     ops += [21, 23]
     if seeks and n_snaps_at:
         for _ in range(rng.choice([0, 1, 2, 3, 5])):
@@ -910,6 +913,8 @@ def walk(inp, out):
                 yield (21, (), take(1)[0]); i += 1
             elif op in (22, 27):        # 27 = 22 with the state rebuilt from its numbers
                 yield (22, inp[i + 1], take(1)[0]); i += 2
+            elif op == 28:
+                yield (28, (), take(1)[0]); i += 1
             elif op == 23:
                 yield (23, (), take(4)); i += 1
             elif op == 24:
@@ -1096,6 +1101,9 @@ def oracle_C07(inp, out):
                 dec_i = None
             elif op == 25:
                 dec_i = None
+            elif op == 28:
+                if res != 0:
+                    return "the decoder's own raw parts were refused by from_raw_parts"
             elif op == 20 and dec_i is not None:
                 if dec_i >= len(h.msg) or h.msg[dec_i][0] != args:
                     dec_i = None
